@@ -2,8 +2,9 @@ import Qryn.LogQL.Ast
 /-! The LogQL metric-query fragment of logql_parser/model_v2.go the C08 planner model covers:
     `LRAOrUnwrap` (range aggregation over a log selector of the C07 fragment, optionally ending in
     `| unwrap <label>`), `AggOperator`, `TopK`, with `ByOrWithout` in prefix and suffix position and
-    `Comparison`. Outside: `quantile_over_time`, `absent_over_time`, macros, parsers/drop/line_format
-    inside the selector. -/
+    `Comparison`. `quantile_over_time` and selectors with `| json l="p"` / `| regexp` / `| drop` are modelled by
+    `LogQL.PlannerMetricX` (types `RangeAggX`, `MetricQueryX`). Outside: `absent_over_time`, macros, stages only the
+    in-process engine has. -/
 namespace Qryn.LogQL
 
 /-- `LRAOrUnwrap.Fn` without a final unwrap stage (switch of `LRAPlanner.Process`) -/
